@@ -5,9 +5,14 @@
      form "periodic": schedule_periodic(p, action, state) - first tick one period after the call;
      form "interval": reactivex.interval(p)               - the same ticks, emitting 0, 1, 2, ...;
      form "timer"   : reactivex.timer(first, p)           - first tick `first` after subscription.
-   The action takes dur[k % 2] units of (virtual) time at tick k (always less than the period),
-   which is what makes "once per period, at k times the period" say something about the
-   re-scheduling: the next tick is one period after the START of this one.
+   The action takes dur[k % 2] units of (virtual) time at tick k, which is what makes "once per
+   period, at k times the period" say something about the re-scheduling: the next tick is one
+   period after the START of this one.  Normally the duration is less than the period.  In an
+   OVERRUN scenario (form "periodic" only) some call takes a whole period or more: the next call
+   then simply starts late, as soon as this one has ended; the statement no longer pins the
+   instants, but it still says: state threaded, never more often than once per period, stops
+   after self-dispose / raise, and NO CALL STARTS AFTER THE DISPOSE - in particular when the
+   dispose arrives (from another thread) while an overrunning call is executing.
    How it stops: never (observed up to Horizon); the returned disposable is disposed at a chosen
    instant T by an independent action (T may be the instant of a tick: the statement does not
    order the two, so BOTH outcomes are allowed); the action disposes it itself at tick K; the
@@ -25,6 +30,7 @@ CONSTANTS Forms,     \* subset of {"periodic", "interval", "timer"}
           Starts,    \* instants t0 at which the work is started
           Firsts,    \* first-tick offsets offered to the "timer" form
           Durs,      \* action durations offered (only those < period are used)
+          Over,      \* overrun scenarios: durations period + o, o \in Over, are offered as well ({} = none)
           Horizon,   \* advance_to target of phase p1
           MaxK       \* tick indices offered to self-dispose / raise; dispose instants go up to Horizon + 2
 
@@ -48,17 +54,25 @@ Init == /\ form \in Forms /\ p \in Periods /\ t0 \in Starts
                                    \* interval/timer are stopped by disposing the subscription only
                                    /\ form # "periodic" => s.kind \in {"none", "dispose"}}
         /\ dur \in [0..1 -> {d \in Durs : d < p}]
+                  \cup (IF form = "periodic"
+                        THEN {f \in [0..1 -> {d \in Durs : d < p} \cup {p + o : o \in Over}] : f[0] >= p \/ f[1] >= p}
+                        ELSE {})
         /\ phase = "p1" /\ clock = t0
         /\ pend = [due |-> t0 + first, k |-> 1, st |-> 0]
         /\ dpend = (stop.kind = "dispose") /\ disposed = FALSE /\ failed = FALSE
         /\ ticks = <<>> /\ n1 = 0 /\ raised = 0
 
 (* ---- the self-rescheduling machine --------------------------------------------------------- *)
-InPhase(due) == phase = "p2" \/ (phase = "p1" /\ due <= Horizon)
+InPhase(t) == phase = "p2" \/ (phase = "p1" /\ t <= Horizon)
+Overrun == dur[0] >= p \/ dur[1] >= p
 
-\* the tick may run unless the dispose is due strictly earlier; at equal due times both are enabled
-CanTick    == pend.k # 0 /\ InPhase(pend.due) /\ ~(dpend /\ stop.at < pend.due)
-CanDispose == dpend /\ InPhase(stop.at) /\ (pend.k = 0 \/ stop.at <= pend.due)
+\* the instant the pending call would start: its due time, or later when the previous call overran
+StartAt == Max(clock, pend.due)
+\* the call may start unless the dispose happened strictly earlier; at the same instant both are enabled.
+\* (The dispose is an event of its own - another thread on the real-time schedulers - so it is not held
+\* up by a call that is executing: a dispose that arrives during an overrunning call precedes the next one.)
+CanTick    == pend.k # 0 /\ InPhase(StartAt) /\ ~(dpend /\ stop.at < StartAt)
+CanDispose == dpend /\ InPhase(stop.at) /\ (pend.k = 0 \/ stop.at <= StartAt)
 
 Tick == /\ phase \in {"p1", "p2"} /\ CanTick
         /\ LET now == Max(clock, pend.due)  k == pend.k IN
@@ -108,13 +122,20 @@ Inf == 1000
 
 TypeOK == /\ clock \in Nat /\ pend.k \in 0..KBound /\ Len(ticks) <= KBound
 \* every call so far is the k-th, at its exact instant, with the threaded state (prefix law)
-TicksExact == \A i \in 1..Len(ticks) : ticks[i] = RefTick(i)
-OncePerPeriod == \A i \in 1..(Len(ticks) - 1) : ticks[i + 1][2] - ticks[i][2] = p
+TicksExact == ~Overrun => \A i \in 1..Len(ticks) : ticks[i] = RefTick(i)
+OncePerPeriod == ~Overrun => \A i \in 1..(Len(ticks) - 1) : ticks[i + 1][2] - ticks[i][2] = p
+\* what remains true when calls overrun (and is true always):
+StateThreaded == \A i \in 1..Len(ticks) : ticks[i][1] = i /\ ticks[i][3] = i - 1
+AtMostOncePerPeriod == \A i \in 1..(Len(ticks) - 1) : ticks[i + 1][2] >= ticks[i][2] + p
+NotBeforeGrid == \A i \in 1..Len(ticks) : ticks[i][2] >= RefTime(i)
+\* "stops once the returned disposable is disposed": no call starts after the dispose instant
+NoCallAfterDispose == stop.kind = "dispose" => \A i \in 1..Len(ticks) : ticks[i][2] <= stop.at
 NoCallAfterStop == (disposed \/ failed) => pend.k = 0
 StopsOnRaise == raised # 0 => /\ stop.kind = "raise" /\ raised = stop.at /\ Len(ticks) = raised /\ failed
 \* at the end of each phase the number of calls is one the reference allows
-RefOK == /\ phase \in {"p2", "done"} => n1 \in RefCounts(Horizon)
-         /\ phase = "done" => /\ Len(ticks) \in RefCounts(IF stop.kind = "none" THEN Horizon ELSE Inf)
+RefOK == /\ (phase \in {"p2", "done"} /\ ~Overrun) => n1 \in RefCounts(Horizon)
+         /\ phase = "done" => /\ ~Overrun => Len(ticks) \in RefCounts(IF stop.kind = "none" THEN Horizon ELSE Inf)
+                              /\ stop.kind \in {"self", "raise"} => Len(ticks) = stop.at
                               /\ stop.kind = "raise" => raised = stop.at
                               /\ stop.kind # "raise" => raised = 0
                               /\ stop.kind # "none" => pend.k = 0       \* start() has nothing left to run
@@ -123,6 +144,6 @@ Terminates == <>(phase = "done")
 (* ---- export -------------------------------------------------------------------------------- *)
 Export == phase = "done" =>
             PrintT(ToJson([scn |-> [form |-> form, p |-> p, t0 |-> t0, first |-> first, stop |-> stop,
-                                    dur |-> <<dur[0], dur[1]>>, horizon |-> Horizon],
+                                    dur |-> <<dur[0], dur[1]>>, horizon |-> Horizon, over |-> Overrun],
                            obs |-> [ticks |-> ticks, n1 |-> n1, raised |-> raised]]))
 ================================================================================
